@@ -82,7 +82,8 @@ def refuse_rules(facts, rep):
     ok &= rep.check(good_d, rule, "data-descriptor-refused", where(st, tk[0][1]["span"]), "flag bit 3 set => error before the entry window is created",
                     "data-descriptor entries (sizes unknown) are not refused before the reader is built")
     # the refusals are errors
-    errs = [a for a in ret_alts(st) if a[0] == "call" and a[1].endswith("unsupported_zip_error")]
+    errs = [a for a in ret_alts(st) if (a[0] == "call" and a[1].endswith("unsupported_zip_error")) or
+            (a[0] == "agg" and a[1] == "adt:Err" and any(x[0] == "agg" and x[1] == "adt:UnsupportedArchive" for x in walk(a)))]
     ok &= rep.check(len(errs) >= 2, rule, "refusals-are-errors", where(st, st.span), "both refusals return UnsupportedArchive", "refusals no longer return an error")
     return ok
 
